@@ -524,7 +524,7 @@ Definition key_leb (a b : key) : bool :=
 Fixpoint insert_key (x : path * key) (l : list (path * key)) : list (path * key) :=
   match l with
   | [] => [x]
-  | y :: l' => if key_leb (snd y) (snd x) then y :: insert_key x l' else x :: l
+  | y :: l' => if key_leb (snd x) (snd y) then x :: l else y :: insert_key x l'
   end.
 Fixpoint sort_keys (l : list (path * key)) : list (path * key) :=
   match l with
